@@ -89,11 +89,21 @@ def r2(ctx):
               expected=f"numpy.ones(shape=({total},))", found=str(alloc))
     stores = [s for s in b.stores() if s.base_name == name]
     other = [m for m in b.mutated.get(name, []) if not isinstance(m, ast.Assign)]
-    if not ctx.check(len(stores) == 1 and not other and not stores[0].loops and stores[0].aug is None, fi,
+    looped = None
+    if len(stores) == 1 and len(stores[0].loops) == 1 and stores[0].aug is None and len(stores[0].idx or ()) == 1 and isinstance(stores[0].loops[0], ast.For):
+        # for e in E: template[f(e)] = 0   is the fancy-index store   template[[f(e) for e in E]] = 0   (the value does not depend on e)
+        kv, krng = b.binder_of(stores[0].loops[0])
+        if isinstance(krng, Range) and not any(x == kv for x in tm.subterms(stores[0].value)):
+            looped = Comp(stores[0].idx[0], kv, krng)
+    if not ctx.check(len(stores) == 1 and not other and (not stores[0].loops or looped is not None) and stores[0].aug is None, fi,
                      "exactly one overwrite of the mask", role="mask:single-store",
                      expected="template[<indices>] = 0", found=f"{len(stores)} store(s), {len(other)} other mutation(s)"):
         return
     s = stores[0]
+    if looped is not None:
+        import copy as _copy
+        s = _copy.copy(s)
+        s.idx = (looped,)
     # (a guard that only excludes the empty argument list - which raises - skips nothing)
     harmless = {tm.compare("!=", tm.length(L), 0).key, tm.compare(">", tm.length(L), 0).key}
     gparts = s.guards.parts if isinstance(s.guards, tm.And) else ([] if s.guards == tm.TRUE else [s.guards])
